@@ -37,11 +37,15 @@ func (n Name) pack(msg []byte, off int, compression map[string]uint16) (int, err
 		// segment. A pointer is two bytes with the two most significant
 		// bits set to 1 to indicate that it is a pointer.
 		if compression != nil {
-			if ptr, ok := compression[string(n[labelStart:])]; ok {
+			if ptr, ok := compression[string(n[labelStart:])]; ok && ptrChainLen(msg, int(ptr)) < maxNamePtrs {
 				// Hit. Emit a pointer instead of the rest of
 				// the domain.
 				return packNamePtr(msg, off, [2]byte{byte(ptr>>8 | 0xC0), byte(ptr)})
 			}
+			// Not a hit, or the suffix is already reached through so many
+			// pointers that one more would make a name no decoder (including
+			// ours) follows. Write the label out; the table entry is replaced
+			// with this, shallower, copy.
 
 			// Miss. Add the suffix to the compression table if the
 			// offset can be stored in the available 14 bits.
@@ -68,6 +72,37 @@ func (n Name) pack(msg []byte, off int, compression map[string]uint16) (int, err
 		return off, err
 	}
 	return packByte(msg, off, 0)
+}
+
+// maxNamePtrs is the number of compression pointers the decoder follows for
+// one name.
+const maxNamePtrs = 10
+
+// ptrChainLen returns the number of pointers that have to be followed to
+// read the name at msg[off:]. msg is a message that is being packed.
+func ptrChainLen(msg []byte, off int) int {
+	ptrs := 0
+	for off < len(msg) {
+		c := int(msg[off])
+		switch c & 0xC0 {
+		case 0x00:
+			if c == 0 {
+				return ptrs
+			}
+			off += 1 + c
+		case 0xC0:
+			if off+1 >= len(msg) {
+				return ptrs
+			}
+			off = (c^0xC0)<<8 | int(msg[off+1])
+			if ptrs++; ptrs > maxNamePtrs {
+				return ptrs
+			}
+		default:
+			return ptrs
+		}
+	}
+	return ptrs
 }
 
 func ToLowerName(n []byte) error {
@@ -266,7 +301,7 @@ Loop:
 				newOff = currOff
 			}
 			// Don't follow too many pointers, maybe there's a loop.
-			if ptr++; ptr > 10 {
+			if ptr++; ptr > maxNamePtrs {
 				return off, errTooManyPtr
 			}
 			currOff = (c^0xC0)<<8 | int(c1)
